@@ -185,6 +185,8 @@ def check_report(sink, repo, folder, de, quick=False):
                 seen.setdefault("shape", "determineException returns %s" % pp(r)[:100])
                 continue
             exps = {t: expected_entry(t, match[t][0], sizes[match[t][0]]) for t in range(T)}
+            if not all(any(same(g, exps[t]) for g in r) for t in range(T)) or len(r) != T:
+                fm.exact(r, "determineException")
             left = list(r)
             for t in range(T):
                 hit = next((g for g in left if same(g, exps[t])), None)
@@ -193,8 +195,6 @@ def check_report(sink, repo, folder, de, quick=False):
                     continue
                 # find the entry that talks about this try (by its start) to say what is wrong
                 cand = next((g for g in left if isinstance(g, list) and g and same(g[0], exps[t][0])), None)
-                if cand is None:
-                    cand = left[0] if left else None
                 cat = classify_entry(cand, exps[t], sizes[match[t][0]]) if cand is not None else "missing"
                 seen.setdefault(cat, "try #%d (handler list #%d, size %d) is reported as %s; the code item encodes %s"
                                 % (t, match[t][0], sizes[match[t][0]], pp(cand)[:300], pp(exps[t])[:300]))
@@ -227,6 +227,8 @@ class Stream:
 
     def repo_call(self, it, fobj, args, kwargs, node, func):
         q = fobj.qualname
+        if q in ("writesleb128", "writeuleb128"):
+            return CatV([Sym("call", q, *args)])      # a byte string: concatenation keeps the order
         if q == "readsleb128":
             v = self.sleb if self.sleb is not None else Sym("sleb", next(self.n))
             self.events.append(("sleb", tuple(args), v))
@@ -256,6 +258,11 @@ class Stream:
             if name == "tell":
                 return Sym("tell", next(self.n))
             raise AnalysisError("%s: stream method %s outside the model" % (func.loc(node), name))
+        if isinstance(recv, Sym) and recv.op.startswith("obj:") and not args:
+            if name == "get_raw":
+                return CatV([mcall(recv, "get_raw")])
+            if name == "get_length":
+                return Sym("len", mcall(recv, "get_raw"))   # get_length() == len(get_raw()) for every item class
         if isinstance(recv, PackerV) and name == "unpack" and len(args) == 1:
             if self.unpack is None:
                 raise AnalysisError("%s: unexpected unpack" % func.loc(node))
@@ -338,13 +345,17 @@ def check_catch_handler(sink, repo, folder, cls):
                    "get_size()/get_handlers()/get_catch_all_addr() return %s / %s, expected the signed size %d, the %d pairs in stream order and the catch-all address"
                    % (pp(g_size), pp(g_h)[:80], size, n), detail="size, pairs in order, catch-all")
         # ---- siblings ------------------------------------------------------------
-        cm_v = o.attrs.get("CM", CM)
+        cm_v = CM
         st.attr_reads = []
         raw = _call(it, o, "get_raw")
         exp_raw = [Sym("call", "writesleb128", cm_v, size)] + [mcall(p, "get_raw") for p in pairs] + \
                   ([Sym("call", "writeuleb128", cm_v, ca)] if size <= 0 else [])
         okr = isinstance(raw, CatV) and len(raw.parts) == len(exp_raw) and all(a == b for a, b in zip(raw.parts, exp_raw))
         graw = cls.lookup("get_raw")
+        if not okr:
+            fm.exact(raw, "EncodedCatchHandler.get_raw")
+            if not isinstance(raw, CatV):
+                raise AnalysisError("EncodedCatchHandler.get_raw() does not evaluate to a concatenation of byte strings (%s)" % show(raw)[:80])
         sink.check("handler/get_raw", label, okr, graw, "EncodedCatchHandler.get_raw",
                    "get_raw() writes %s for size %d, expected sleb128(size), the pairs in order%s"
                    % (pp(raw.parts if isinstance(raw, CatV) else raw)[:200], size, ", uleb128(catch_all_addr)" if size <= 0 else " and no catch-all"),
@@ -352,10 +363,14 @@ def check_catch_handler(sink, repo, folder, cls):
         ln = _call(it, o, "get_length")
         exp_ln = Lin({Sym("len", Sym("call", "writesleb128", cm_v, size)): 1}, 0)
         for p in pairs:
-            exp_ln = exp_ln + Lin.of(mcall(p, "get_length"))
+            exp_ln = exp_ln + Lin.of(Sym("len", mcall(p, "get_raw")))
         if size <= 0:
             exp_ln = exp_ln + Lin.of(Sym("len", Sym("call", "writeuleb128", cm_v, ca)))
         glen = cls.lookup("get_length")
+        if not (Lin.of(ln) is not None and lin_eq(ln, exp_ln.simplify())):
+            fm.exact(ln, "EncodedCatchHandler.get_length")
+            if Lin.of(ln) is None:
+                raise AnalysisError("EncodedCatchHandler.get_length() does not evaluate to a sum of lengths (%s)" % show(ln)[:80])
         sink.check("handler/get_length", label, Lin.of(ln) is not None and lin_eq(ln, exp_ln.simplify()), glen, "EncodedCatchHandler.get_length",
                    "get_length() is %s for size %d, expected %s" % (pp(ln)[:200], size, pp(exp_ln.simplify())[:200]),
                    detail="same guard as the reader")
@@ -370,7 +385,7 @@ def check_catch_handler(sink, repo, folder, cls):
                     _call(it, o, g)
                 except Raised:
                     pass
-                bad = [a for a in st.attr_reads if a not in o.attrs and "catch" in a]
+                bad = [a for a in st.attr_reads if a not in o.attrs and o.cls.lookup(a) is None and o.cls.lookup_attr(a) is None]
                 sink.check("handler/guard-agreement", "%s %s" % (label, g), not bad, f, "EncodedCatchHandler.%s: catch-all guard" % g,
                            "%s() reads %s for size %d although the constructor only sets it when size <= 0" % (g, bad, size))
         sink.count("handler_sizes")
@@ -550,7 +565,6 @@ def run(ctx):
     canary(ctx, "report units", de, lambda s: check_report(s, repo, folder, de, quick=True), ["drop*2", "add->sub", "const+1"])
     canary(ctx, "catch-all guard", ech.lookup("__init__"), lambda s: check_catch_handler(s, repo, folder, ech), ["negate-if", "const+1"])
     canary(ctx, "padding guard", dc.lookup("__init__"), lambda s: check_code_item(s, repo, folder, dc), ["and->or", "negate-if", "const+1"])
-    ctx.floor("positive_controls", 3)
     if ctx.tier == "thorough":
         _mutation_adequacy(ctx, repo, folder, de, ech, dc)
 
